@@ -138,6 +138,28 @@ def has_multiline_args(entries):
     return any(any(c in breaks for c in t) for e in entries for t in texts(e))
 
 
+def neutralise(rst):
+    """For ORACLE comparisons only: the properties name *that* a macro note / a do-not-call warning / the option note is there,
+    not its wording.  Keep each note/warning directive line without its text (for the test warnings: with the kind the property
+    names — CMakeTest test / CMakeTest section / CTest test) and drop the directive's own body."""
+    out = []; skip_indent = None
+    for l in rst.split("\n"):
+        stripped = l.lstrip(" ")
+        ind = len(l) - len(stripped)
+        if skip_indent is not None:
+            if stripped == "" or ind > skip_indent: continue
+            skip_indent = None
+        if stripped.startswith(".. note::") or stripped.startswith(".. warning::"):
+            kind = ""
+            for k in ("CMakeTest test", "CMakeTest section", "CTest test", "generic command"):
+                if k in stripped: kind = " <" + k + ">"
+            out.append(" " * ind + stripped.split("::")[0] + "::" + kind)
+            skip_indent = ind
+            continue
+        out.append(l)
+    return "\n".join(out)
+
+
 def project(prop, rst, entries):
     """π_P: the part of a page / entry list property P talks about"""
     if prop in ('C07', 'C20', 'C04', 'C05', 'C06', 'C12', 'C13', 'C17', 'C18'):
